@@ -96,13 +96,16 @@ class CHECK(core.Check):
                "instantiated from the calls the implementation made; json.dumps output is an input of the model",
                "oracle uses CPython's parse_qsl / json.loads as the reference readers of query strings, form bodies and JSON",
                "fix patch assumed applied: fixes/D30a (form values quoted separately)"]
-    PARTIAL = ["the theorems are about the wire format: that Requester.build and Responder.service emit exactly that format "
-               "(and, for the request target, that urlsplit/quote/unquote/quote_plus round-trip paths and query values) is "
-               "established by the correspondence runs, not in Lean; the WSGI environment (Valet.buildEnviron) is a "
-               "correspondence check only",
-               "whole-buffer parsing only (arrival in pieces is C29); chunk extensions (always a TypeError in parseChunk), "
-               "multipart/form-data bodies (random boundary), server sent events, idna fallbacks, AttributiveGenerator "
-               "overrides, Python int() spellings with sign/underscore/0x are outside the model"]
+    PARTIAL = ["C30_built_request_roundtrip_partial: Requester.build's assembly (request line + packHeader line per entry + body) "
+               "is proved to parse back, given that the entries' lines are well-formed header lines that frame the body; that "
+               "buildParts chooses such entries (Content-Length exactly for a non-empty body) and that urlsplit/quote/unquote/"
+               "quote_plus round-trip paths and query values is established by the correspondence runs, not in Lean",
+               "response direction: Responder.service -> wire -> Respondent is proved end to end for the chunked mode "
+               "(C30_responder_frames_chunked); for Content-Length / until-close / HTTPError responses the responder-to-wire "
+               "step is correspondence only (the wire-to-client step is proved)",
+               "whole-buffer parsing only (arrival in pieces is C29); multipart/form-data bodies (random boundary), server "
+               "sent events, idna fallbacks, AttributiveGenerator overrides, Python int() spellings with sign/underscore/0x "
+               "are outside the model"]
     TECHNIQUE = ("Lean 4 theorems about byte-level codecs (round trips by induction over lists; structural line splitter; "
                  "hex/decimal numerals) + differential correspondence of the builders and parsers of both directions")
     LEVEL_TEXT = ("Proved on the model, for all inputs and every behaviour of urllib.parse: parseChunk(packChunk(b)+rest) = "
@@ -112,7 +115,10 @@ class CHECK(core.Check):
                   "target, such header lines, Content-Length framing) is parsed by Requestant into the same method, target, "
                   "headers and body with the rest untouched (C30_request_wire_roundtrip); a response on the wire is parsed by "
                   "Respondent into the same status, reason, headers and body in each framing mode: Content-Length, chunked, "
-                  "until close (C30_response_wire_length / _chunked / _until_close).")
+                  "until close (C30_response_wire_length / _chunked / _until_close); the WSGI environment built from a parsed "
+                  "request carries its method, path, query, scheme, body, Content-Type/Length and every header "
+                  "(C30_environ_consistent); and a WSGI application without Content-Length served by Responder.service is "
+                  "read back by the client with the same status, headers and body (C30_responder_frames_chunked).")
     LEVEL_NOTE = ("Trusted: Lean kernel; axioms propext, Classical.choice, Quot.sound; the hand transcription of httping.py, "
                   "clienting.py (Requester, Respondent) and serving.py (Requestant, Responder, buildEnviron) validated only "
                   "by the correspondence runs (which also tie the builders to the wire format the theorems speak about); "
